@@ -7,6 +7,9 @@ FEATURES = {
     "promote-if": "mon = SerialMonitor(9600)\nc = 1\nif c > 0:\n    alpha = 1\n    beta = 2\n    gama = 3\n    delta = 4\nelse:\n    beta = 7\n    omega = 9\nmon.write(alpha + beta + gama + delta)\n",
     "promote-else": "mon = SerialMonitor(9600)\nc = 1\nif c > 5:\n    first = 1\nelif c > 3:\n    second = 2\n    quebec = 4\nelse:\n    zulu = 1\n    kilo = 2\n    alpha = 3\n    mike = 4\n    hotel = 5\nmon.write(c)\n",
     "promote-else-fn": "mon = SerialMonitor(9600)\ndef pick(c):\n    if c > 5:\n        first = 1\n    else:\n        zulu = 1\n        kilo = 2\n        alpha = 3\n        mike = 4\n    return c\nmon.write(pick(2))\n",
+    "multi-ultrasonic": "mon = SerialMonitor(9600)\nzulu = Ultrasonic(2, 3)\nalpha = Ultrasonic(4, 5)\nmike = Ultrasonic(6, 7)\nkilo = Ultrasonic(8, 9)\nwhile True:\n    mon.write(zulu.measure_distance())\n    mon.write(alpha.measure_distance())\n    mon.write(mike.measure_distance())\n    mon.write(kilo.measure_distance())\n",
+    "multi-buttons": "mon = SerialMonitor(9600)\ndef za():\n    mon.write(1)\ndef ab():\n    mon.write(2)\nzulu = Button(2, on_click=za)\nalpha = Button(3, on_click=ab)\nmike = Button(4)\nkilo = Button(5, on_click=za)\nwhile True:\n    mon.write(mike.is_pressed())\n",
+    "multi-devices": "zulu = Led(2)\nalpha = Led(3)\nmike = Servo(4)\nkilo = Servo(5)\nhotel = DCMotor(6, 7, 8)\nbravo = DCMotor(9, 10, 11)\nwhile True:\n    zulu.toggle()\n    alpha.toggle()\n    mike.write(1)\n    kilo.write(2)\n    hotel.stop()\n    bravo.stop()\n",
     "promote-loop": "mon = SerialMonitor(9600)\nc = 1\nwhile True:\n    if c > 0:\n        u1 = 1\n        u2 = 2\n        u3 = 3\n    mon.write(u1 + u2 + u3)\n",
     "promote-while": "mon = SerialMonitor(9600)\nn = 0\nwhile n < 3:\n    n += 1\n    zeta = n * 2\n    eta = n + 1\n    theta = 5\nmon.write(n)\n",
     "promote-for": "mon = SerialMonitor(9600)\nfor i in range(3):\n    k1 = i\n    k2 = i * 2\n    k3 = 1\nmon.write(3)\n",
